@@ -3,6 +3,7 @@
 //! evaluations of each property on the implementation's output.
 mod util;
 mod c14;
+mod geom;
 
 use std::path::PathBuf;
 use util::Args;
@@ -37,6 +38,8 @@ fn main() {
     std::fs::create_dir_all(&args.out).expect("out dir");
     let r = match argv[1].to_lowercase().as_str() {
         "c14" => c14::main(&args),
+        "c10" => geom::main_c10(&args),
+        "c11" => geom::main_c11(&args),
         p => { eprintln!("unknown property {}", p); std::process::exit(2); }
     };
     if let Err(e) = r {
